@@ -301,9 +301,9 @@ func init() {
 			return nil
 		},
 		Streams: []*vf.Stream{
-			{Name: "hashes", N: func(t vf.Tier) int { return directedHashCount(32) + t.Sz(2000, 50000) }, Run: c01hashCase},
-			{Name: "scripts", N: func(t vf.Tier) int { return 521 + t.Sz(500, 20000) }, Run: c01scriptCase},
-			{Name: "pubkeys", N: func(t vf.Tier) int { return 64 + t.Sz(300, 5000) }, Run: c01pubkeyCase},
+			{Name: "hashes", N: func(t vf.Tier) int { return directedHashCount(32) + t.Sz(20000, 300000) }, Run: c01hashCase},
+			{Name: "scripts", N: func(t vf.Tier) int { return 521 + t.Sz(5000, 100000) }, Run: c01scriptCase},
+			{Name: "pubkeys", N: func(t vf.Tier) int { return 64 + t.Sz(2000, 30000) }, Run: c01pubkeyCase},
 		},
 	})
 }
